@@ -14,12 +14,15 @@ from common import Ctx, Finding, Outcome, err_class
 
 sys.path.insert(0, str(common.VERIF / "tools"))
 import gen_periodic  # noqa: E402
+import c01_anchor  # noqa: E402  (embedded textbook table + its translator; independent of /repo)
 
 PROPERTY = "C01"
 LEAN_TARGETS = ["QcelVerif.Props.C01", "QcelVerif.Driver.C01"]
 DRIVER = "QcelVerif/Driver/C01.lean"
 THEOREMS = [
     ("QcelVerif.PT.shipped_faithful", "rebuild(raw SRD-144 JSON, literal tables of build_periodic_table.py) = shipped (elements, nuclides): rows, order, D/T double spelling, masses digit-for-digit, bare element = most abundant / longest-lived isotope [decide +kernel over the whole generated table]"),
+    ("QcelVerif.PT.bare_default_textbook", "against a table embedded in the harness (NOT the repository's build script): the shipped element rows are (Z, symbol, name) of the textbook table for Z = 1, 2, ... (at least the 92 natural elements), and for each of them int Z / str Z / symbol / name return the textbook default isotope's mass number (most abundant; longest-lived per NIST SP 966 if none is stable) and exactly the mass of that isotope's own label [decide +kernel]"),
+    ("QcelVerif.PT.anchor_agrees_with_srd144", "the embedded table agrees with the raw NIST file itself: every bracketed standard atomic weight '[A]' of SRD-144 is the embedded longest-lived isotope, every SRD-144 element has the embedded symbol at its Z (after the 2016 renames) and is flagged unstable iff NIST gives it no isotopic composition [decide +kernel]"),
     ("QcelVerif.PT.tree_isBST", "the generated search tree is ordered"),
     ("QcelVerif.PT.tree_is_dict", "tree = dict(zip(EA, (_EE, A, mass))): every row found with its own values, no other keys"),
     ("QcelVerif.PT.aliases_agree", "for all 118 element rows: int Z, str Z, symbol, name resolve (strict or not) to the row's symbol and return its Z/E/name"),
@@ -34,13 +37,15 @@ THEOREMS = [
     ("QcelVerif.PT.strict_exact", "strict accepts exactly the non-strict answers that are bare element symbols"),
     ("QcelVerif.PT.period_group_standard", "for EVERY Z: period ladder = 1 + #noble gases below Z; group lists = 18-column offset rule (f-block none)"),
 ]
-TRANSLATORS = [gen_periodic.main]
+TRANSLATORS = [gen_periodic.main, c01_anchor.translate]
 TRUSTED_BASE = [
     "Lean 4.33 kernel (decide +kernel evaluation of the generated tables; no native_decide); axioms audited per theorem",
     "tools/gen_periodic.py: re-encodes data/nist_2011_atomic_weights.py, the SRD-144 JSON and four literal tables of build_periodic_table.py as packed naturals (no normalisation in the translator); cross-checked by the exhaustive correspondence below",
     "hand-written model Model/PeriodicTable.lean of periodic_table.py:42-347 tied by exhaustive correspondence over the whole table x alias forms x cases x accessors",
     "CPython float(str)/Decimal(str) (mass as float must equal float(decimal text); checked to be the nearest double with exact rationals)",
     "the oracle's independent re-reading of the raw NIST JSON and the embedded textbook 18-column layout",
+    "harness/c01_anchor.py: the embedded textbook table (118 x Z, symbol, NIST spelling of the name, most abundant or — NIST SP 966, July 2018 — longest-lived isotope; Uut/Uup/Uus renames; D/T) that anchors the oracle and the theorems bare_default_textbook / anchor_agrees_with_srd144; typed in by hand, cross-checked against the SRD-144 bracket notation (9 elements) and compositions in Lean and in the oracle; for Pu…Ts (25 elements) it is the only source besides the repository's own build script",
+    "the raw SRD-144 JSON under raw_data/ is taken as NIST's word (a change to it that also contradicts the embedded table or the nuclear mass-excess bound is reported, a self-consistent change of individual mass digits is not detectable)",
 ]
 ASSUMPTIONS = [
     "ASCII identifiers only (CPython's Unicode capitalize()/int() accept e.g. non-ASCII digits); int and str arguments only (the documented Union[int, str])",
@@ -51,15 +56,22 @@ LEVEL_TEXT = (
     "shipped table equals the documented rebuild of the raw NIST SRD-144 file, every alias form of every element and every nuclide label resolves "
     "to its own row, float masses are the nearest doubles — plus general theorems for arbitrary tables and ASCII texts (case-insensitivity, "
     "no-wrong-species, strict mode, period/group layout for every Z); tied to periodic_table.py by an exhaustive correspondence over the table x "
-    "alias forms x cases x accessors and an independent oracle reading the raw NIST JSON and a textbook 18-column layout."
+    "alias forms x cases x accessors (both documented names of each accessor) and an independent oracle reading the raw NIST JSON and a textbook "
+    "table embedded in the harness (18-column layout, names, default isotopes). The side tables of the repository's build script "
+    "(names, longest-lived isotopes, renames, aliases) are trusted by shipped_faithful only; the oracle and the theorems bare_default_textbook / "
+    "anchor_agrees_with_srd144 do not read them, so a regeneration that alters a side table together with the data file is caught with a concrete input."
 )
 TECHNIQUE = "Lean 4 kernel evaluation of translator-generated tables + general string-model theorems + exhaustive correspondence"
 RULE = (
     "exhaustive: every element row x {int Z, str Z, symbol, name} and every nuclide label x {as-is, lower, upper, random mixed case} "
-    "x accessors {to_Z,to_E,to_element (strict off/on), to_A, to_mass (Decimal+float), to_period, to_group}; plus an out-of-table "
-    "stream (negative/large Z, decimal strings, A in front, non-existent A, all 1-2 letter and sampled 3-letter non-symbols, "
-    "whitespace/sign/underscore integer spellings, random printable ASCII). Distinct = (accessor, strict, argument); non-trivial = "
-    "argument is not the canonical capitalised key (alias, other case, or outside the table)."
+    "x accessors {to_Z,to_E,to_element (strict off/on), to_A, to_mass (Decimal+float), to_period, to_group} and the second names "
+    "{to_atomic_number,to_symbol,to_name (strict off/on), to_mass_number} (all alias forms of element rows, one spelling per nuclide label); "
+    "the nuclide labels are the union of those NIST tabulates (raw JSON) and those the shipped table has; every successful mass is also "
+    "checked against the reported mass number (mass excess bound) and, for bare elements, against the mass of the label <symbol><to_A>; "
+    "plus an out-of-table stream (negative/large Z, decimal strings, A in front, non-existent A: every gap inside and both neighbours of each "
+    "element's tabulated range, placeholder symbols Uut/Uup/Uus with real mass numbers, other tables' spellings (Aluminium, Caesium, Deuterium), "
+    "all 1-2 letter and sampled 3-letter non-symbols, whitespace/sign/underscore integer spellings, random printable ASCII). "
+    "Distinct = (accessor, strict, argument); non-trivial = argument is not the canonical capitalised key (alias, other case, or outside the table)."
 )
 
 LAYOUT = """
@@ -86,19 +98,48 @@ def textbook_positions():
     return pos
 
 
+def textbook_z_order():
+    """Symbols in order of atomic number, read off the 18-column LAYOUT (f-block rows inserted at * / **)."""
+    order = []
+    for p, line in enumerate(LAYOUT.strip().splitlines(), start=1):
+        for tok in line.split():
+            if tok == ".":
+                continue
+            if tok in ("*", "**"):
+                order += FBLOCK[p]
+            else:
+                order.append(tok)
+    return order
+
+
+def saw_bracket(el):
+    """NIST prints the standard atomic weight of an element without stable isotopes as '[A]', A = mass number of
+    its longest-lived isotope."""
+    m = re.fullmatch(r"\[(\d+)\]", el.get("Standard Atomic Weight") or "")
+    return int(m.group(1)) if m else None
+
+
 def nist_expectations():
-    """Independent re-reading of the raw NIST file: label -> (Z, E, name, A, mass string)."""
+    """Independent re-reading of the raw NIST file: label -> (Z, E, name, A, mass string).
+
+    Nothing here comes from the repository's build script or the shipped table: names, the longest-lived isotope of
+    the unstable elements and the 2016 renames are the embedded textbook table of c01_anchor.py; everything else is
+    the raw SRD-144 JSON.  Returns (exp, elements, conflicts) where `conflicts` lists elements on which the oracle's
+    own sources (raw JSON / embedded table / 18-column layout) contradict each other — on a genuine NIST file: none.
+    """
     raw = json.loads((common.REPO / "raw_data/nist_data/srd144_Atomic_Weights_and_Isotopic_Compositions_for_All_Elements.json").read_text())
-    script = common.REPO / "raw_data/nist_data/build_periodic_table.py"
-    names = gen_periodic.literal_assign(script, "element_names")
-    longest = gen_periodic.literal_assign(script, "longest_lived_isotope_for_unstable_elements")
-    newnames = {"Uut": "Nh", "Uup": "Mc", "Uus": "Ts"}
+    anchor = {z: (sym, nm, a, unstable) for z, sym, nm, a, unstable in c01_anchor.textbook_rows()}
+    newnames = c01_anchor.RENAMED
+    zorder = textbook_z_order()
     exp = {"X": (0, "X", "Dummy", 0, "0"), "X0": (0, "X", "Dummy", 0, "0")}
     elements = [(0, "X", "Dummy")]
+    conflicts = []
     for el in raw["data"]:
         sym = newnames.get(el["Atomic Symbol"], el["Atomic Symbol"])
         z = int(el["Atomic Number"])
-        nm = names[z - 1].capitalize()
+        asym, nm, a_anchor, unstable = anchor[z]
+        if asym != sym or zorder[z - 1] != sym:
+            conflicts.append((sym, f"Z={z}: raw NIST file says {sym}, embedded table {asym}, 18-column layout {zorder[z - 1]}"))
         elements.append((z, sym, nm))
         isos = []
         for iso in el["isotopes"]:
@@ -111,13 +152,21 @@ def nist_expectations():
             exp[f"{sym}{a}"] = (z, sym, nm, a, mass)
             if isym != sym:  # D, T
                 exp[isym] = (z, sym, nm, a, mass)
+                if c01_anchor.HYDROGEN_ALIASES.get(isym) != (sym, a):
+                    conflicts.append((sym, f"isotope symbol {isym} of {sym}{a} is not a textbook alias"))
         stable = [i for i in isos if i[2] is not None]
         if stable:
             best = max(stable, key=lambda i: i[2])  # first maximum
         else:
-            best = next(i for i in isos if i[0] == longest[sym])
+            best = next((i for i in isos if i[0] == a_anchor), None)
+        if best is None or best[0] != a_anchor or bool(stable) == unstable:
+            conflicts.append((sym, f"default isotope of {sym}: raw NIST compositions give {best and best[0]}, embedded table {a_anchor}{'*' if unstable else ''}"))
+            best = best or isos[0]
+        br = saw_bracket(el)
+        if br is not None and (br != a_anchor or not unstable):
+            conflicts.append((sym, f"SRD-144 standard atomic weight [{br}] vs embedded longest-lived isotope {sym}{a_anchor}"))
         exp[sym] = (z, sym, nm, best[0], best[1])
-    return exp, elements
+    return exp, elements, conflicts
 
 
 def hexs(s: str) -> str:
@@ -125,19 +174,24 @@ def hexs(s: str) -> str:
 
 
 ACCS = [("Z", 0), ("Z", 1), ("E", 0), ("E", 1), ("name", 0), ("name", 1), ("A", 0), ("mass", 0), ("massbits", 0), ("period", 0), ("group", 0)]
+# the documented second names of four accessors (periodic_table.py:242-245): other entry points of the same property.
+# "<model accessor>@<method>": the Lean driver is asked for the model accessor, the implementation is called by method.
+ALIAS_ACCS = [("Z@to_atomic_number", 0), ("Z@to_atomic_number", 1), ("E@to_symbol", 0), ("E@to_symbol", 1),
+              ("name@to_name", 0), ("name@to_name", 1), ("A@to_mass_number", 0)]
+METHOD = {"Z": "to_Z", "E": "to_E", "name": "to_element", "A": "to_A", "period": "to_period", "group": "to_group"}
+# every tabulated nuclide mass lies within this many u of its mass number (largest mass excess of a known nuclide is
+# about 0.2 u = 200 MeV, for the heaviest elements; light exotic nuclides reach 0.05 u)
+MASS_EXCESS_BOUND = Decimal("0.25")
 
 
 def call_impl(pt, acc, strict, arg):
+    base, _, meth = acc.partition("@")
     try:
-        if acc == "Z":
-            return "ok " + str(pt.to_Z(arg, strict=bool(strict)))
-        if acc == "E":
-            return "ok " + pt.to_E(arg, strict=bool(strict))
-        if acc == "name":
-            return "ok " + pt.to_element(arg, strict=bool(strict))
-        if acc == "A":
-            return "ok " + str(pt.to_A(arg))
-        if acc == "mass":
+        if base in ("Z", "E", "name"):
+            return "ok " + str(getattr(pt, meth or METHOD[base])(arg, strict=bool(strict)))
+        if base in ("A", "period", "group"):
+            return "ok " + str(getattr(pt, meth or METHOD[base])(arg))
+        if base == "mass":
             d = pt.to_mass(arg, return_decimal=True)
             f = pt.to_mass(arg)
             if not isinstance(d, Decimal) or f != float(str(d)):
@@ -150,14 +204,10 @@ def call_impl(pt, acc, strict, arg):
                 if abs(Fraction(nb) - dr) < abs(fr - dr):
                     return f"ok {d} FLOAT-NOT-NEAREST {f!r}"
             return "ok " + str(d)
-        if acc == "massbits":
+        if base == "massbits":
             import struct
 
             return "ok " + str(struct.unpack(">Q", struct.pack(">d", pt.to_mass(arg)))[0])
-        if acc == "period":
-            return "ok " + str(pt.to_period(arg))
-        if acc == "group":
-            return "ok " + str(pt.to_group(arg))
     except Exception as e:  # noqa
         return "err " + err_class(e)
     raise ValueError(acc)
@@ -167,15 +217,96 @@ def mixed(rng, s):
     return "".join(c.upper() if rng.random() < 0.5 else c.lower() for c in s)
 
 
+def enc(acc, st, arg):
+    return f"{acc.partition('@')[0]} {st} " + (f"i {arg}" if isinstance(arg, int) else f"s {hexs(arg)}")
+
+
+class Tables:
+    """What the oracle knows, none of it read from the shipped table or the repository's build script."""
+
+    def __init__(self):
+        self.exp, self.elements, self.conflicts = nist_expectations()
+        self.textbook = textbook_positions()
+        self.el_syms = {sym for _, sym, _ in self.elements}
+        self.anchor = {sym: (z, nm, a, unstable) for z, sym, nm, a, unstable in c01_anchor.textbook_rows()}
+
+
+def judge(pt, T: Tables, acc, st, arg, species, tag, got):
+    """The property, stated on one output of the implementation.  Returns the list of Findings."""
+    import struct
+
+    base = acc.partition("@")[0]
+    case = {"accessor": acc, "strict": st, "arg": arg, "species": species, "tag": tag}
+    fs = []
+    if got.startswith("err") and got != "err NotAnElement":
+        fs.append(Finding("oracle:error_class", case, observed=got, expected="err NotAnElement", detail="only NotAnElementError is documented"))
+    if "FLOAT" in got:
+        fs.append(Finding("oracle:mass_float", case, observed=got, detail="float mass is not the nearest double to the Decimal"))
+    # a mass (of anything that resolves) is the mass of a nuclide with the mass number the library reports for it
+    if base == "mass" and got.startswith("ok ") and "FLOAT" not in got:
+        try:
+            d, a = Decimal(got.split()[1]), pt.to_A(arg)
+            if abs(d - a) >= MASS_EXCESS_BOUND and not (a == 0 and d == 0):
+                fs.append(Finding("oracle:mass_far_from_mass_number", case, observed=f"{got} with to_A = {a}", expected=f"|mass - A| < {MASS_EXCESS_BOUND}",
+                                  detail="no nuclide has a mass excess that large: mass and mass number belong to different rows"))
+        except Exception as e:  # noqa
+            fs.append(Finding("oracle:mass_far_from_mass_number", case, observed=f"{got} but to_A raises {err_class(e)}", expected="to_A succeeds where to_mass does"))
+    if species is None:
+        if not got.startswith("err NotAnElement"):
+            fs.append(Finding("oracle:outside_table_accepted", case, observed=got, expected="err NotAnElement", detail="a name that denotes no tabulated species returned data"))
+        return fs
+    if species == "?" or species not in T.exp:
+        return fs
+    z, sym, nm, a, mass = T.exp[species]
+    rejected = bool(st) and species not in T.el_syms
+    if rejected:
+        want = "err NotAnElement"
+    else:
+        want = {"Z": str(z), "E": sym, "name": nm, "A": str(a), "mass": mass}.get(base)
+        if base == "massbits":
+            want = str(struct.unpack(">Q", struct.pack(">d", float(mass)))[0])
+        if base in ("period", "group"):
+            if sym == "X":
+                want = None  # the dummy has no position in the textbook table; model diff only
+            else:
+                p, g = T.textbook[sym]
+                want = str(p) if base == "period" else str(g)
+        want = None if want is None else "ok " + want
+    if want is not None and got != want:
+        fs.append(Finding("oracle:nist_value", case, observed=got, expected=want, detail=f"species {species} ({tag})"))
+    if rejected or sym == "X":
+        return fs
+    # --- the embedded textbook table, on its own (differs from the clause above only if the raw NIST file was altered)
+    tz, tnm, ta, unstable = T.anchor[sym]
+    bare = species in T.el_syms
+    twant = {"Z": str(tz), "name": tnm}.get(base)
+    if bare and base == "A":
+        twant = str(ta)
+    if twant is not None and got != "ok " + twant and "ok " + twant != want:
+        fs.append(Finding("oracle:textbook_value", case, observed=got, expected="ok " + twant,
+                          detail=f"{sym}: Z={tz}, {tnm}, default isotope {sym}{ta} ({'longest-lived, NIST SP 966' if unstable else 'most abundant'})"))
+    # --- a bare element IS one of its isotopes: same mass as the explicit label <symbol><to_A(bare)>
+    if bare and base == "mass" and got.startswith("ok ") and "FLOAT" not in got:
+        try:
+            lbl = f"{pt.to_E(arg)}{pt.to_A(arg)}"
+            own = call_impl(pt, "mass", 0, lbl)
+        except Exception as e:  # noqa
+            lbl, own = "?", "err " + err_class(e)
+        if own != got:
+            fs.append(Finding("oracle:bare_is_own_isotope", case, observed=f"{got} but to_mass({lbl!r}) -> {own}", expected="equal",
+                              detail="mass of the bare element differs from the mass of the isotope its own mass number names"))
+    return fs
+
+
 def run(ctx: Ctx) -> Outcome:
     import qcelemental as qcel
 
     pt = qcel.periodictable
     out = Outcome()
     rng = ctx.rng
-    exp, elements = nist_expectations()
-    textbook = textbook_positions()
-    cases = []  # (acc, strict, kind, arg, expected_species_or_None, tag)
+    T = Tables()
+    exp, elements = T.exp, T.elements
+    cases = []  # (acc, strict, arg, expected_species_or_None, tag)
 
     def add(arg, species, tag, accs=ACCS):
         for acc, st in accs:
@@ -183,24 +314,34 @@ def run(ctx: Ctx) -> Outcome:
 
     # --- element rows: every alias form, every case
     for z, sym, nm in elements:
-        add(z, sym, "int Z")
+        add(z, sym, "int Z", ACCS + ALIAS_ACCS)
         for form, tag in ((str(z), "str Z"), (sym, "symbol"), (nm, "name")):
             variants = {form, form.lower(), form.upper(), mixed(rng, form)}
-            for v in variants:
-                add(v, sym, tag)
-    # --- nuclide labels: every label, several cases
-    labels = list(pt.EA)
+            for v in sorted(variants):
+                add(v, sym, tag, ACCS + ALIAS_ACCS)
+    # --- nuclide labels: every label NIST tabulates (whether or not the shipped table has it) and every label the
+    #     shipped table has (whether or not NIST tabulates it), several cases
+    shipped_labels = list(pt.EA)
+    labels = list(exp) + [lab for lab in dict.fromkeys(shipped_labels) if lab not in exp]
+    missing = [lab for lab in exp if lab not in set(shipped_labels)]
     for lab in labels:
         variants = {lab, lab.lower(), mixed(rng, lab)}
         if ctx.thorough:
             variants |= {lab.upper(), mixed(rng, lab)}
-        for v in variants:
-            add(v, lab, "nuclide")
+        for v in sorted(variants):
+            if lab in exp:
+                add(v, lab, "nuclide")
+            else:
+                add(v, None, "shipped label NIST does not tabulate")
+        if lab in exp:
+            add(lab if rng.random() < 0.5 else mixed(rng, lab), lab, "nuclide", ALIAS_ACCS)
     # --- outside the table
     outside = []
     outside += [-1, -5, 118, 119, 200, 10**9, -(10**6)]
     outside += ["-1", "118", "200", "1.0", "1.", "1e0", "0x1", "4He", "84Kr", "2H", "He100", "H8", "Kr300", "X1", "C_sp3", "Ca_", "H-1", "", " ", "He 4", "H e"]
     outside += ["cat", "dog", "Xx", "Qq", "Jj", "Hydrogenn", "Hydroge", "Uut", "Uup", "Uus", "Dummyx"]
+    # spellings that are some other table's name for a tabulated element, never this table's
+    outside += ["Aluminium", "Caesium", "Sulphur", "Ununtrium", "Ununpentium", "Ununseptium", "Deuterium", "Tritium", "Og", "Oganesson", "Uuo", "Og294"]
     # valid labels wrapped in whitespace are NOT names of a species (only integer text is stripped, by int())
     padded_src = [sym for _, sym, _ in elements] + [nm for _, _, nm in elements] + rng.sample(labels, min(len(labels), ctx.scale(400, 3470)))
     for lab in padded_src:
@@ -214,9 +355,26 @@ def run(ctx: Ctx) -> Outcome:
             outside.append(mixed(rng, sym_) + rng.choice(["0", "00"]) + a_)
             if rng.random() < 0.3:
                 outside.append(sym_ + rng.choice(["+", "_", " ", "-"]) + a_)
+    # mass numbers next to the tabulated range of an element, and the placeholder symbols with real mass numbers
+    by_el = {}
+    for lab in exp:
+        mm = re.fullmatch(r"([A-Za-z]+)(\d+)", lab)
+        if mm and lab != "X0":
+            by_el.setdefault(mm.group(1), set()).add(int(mm.group(2)))
+    for sym_, As in by_el.items():
+        for a_ in (min(As) - 1, max(As) + 1):
+            if a_ > 0:
+                outside.append(mixed(rng, sym_) + str(a_))
+        for a_ in range(min(As), max(As)):
+            if a_ not in As:
+                outside.append(sym_ + str(a_))
+    for old_, new_ in c01_anchor.RENAMED.items():
+        for a_ in sorted(by_el.get(new_, ())):
+            outside.append(old_ + str(a_))
     # decimal spellings of valid atomic numbers
     outside += [f"{z}.0" for z in range(0, 118, 7)] + [f"{z}." for z in (1, 2, 36)]
-    known = {s.lower() for s in pt.EA} | {n.lower() for n in pt.name}
+    known = {s.lower() for s in exp} | {n.lower() for _, _, n in elements}
+    outside = [a for a in outside if not (isinstance(a, str) and a.lower() in known)]
     letters = "abcdefghijklmnopqrstuvwxyz"
     for n in (1, 2):
         for t in itertools.product(letters, repeat=n):
@@ -247,75 +405,64 @@ def run(ctx: Ctx) -> Outcome:
         add(a, "?", "intish/random", small_accs)
 
     # --- model
-    def enc(acc, st, arg):
-        return f"{acc} {st} " + (f"i {arg}" if isinstance(arg, int) else f"s {hexs(arg)}")
-
     lines = [enc(acc, st, arg) for acc, st, arg, _, _ in cases]
     model = ctx.run_model(DRIVER, lines) if ctx.model_available else [None] * len(lines)
 
-    el_syms = {sym for _, sym, _ in elements}
     for (acc, st, arg, species, tag), ml in zip(cases, model):
         got = call_impl(pt, acc, st, arg)
         out.evaluations += 1
         out.count("tag:" + tag)
+        if "@" in acc:
+            out.count("entry:" + acc.partition("@")[2])
         out.count("outcome:" + got.split()[0] + (":" + got.split()[1] if got.startswith("err") else ""))
         canonical = isinstance(arg, str) and species == arg
         if not canonical:
             out.nontrivial(f"{acc}|{st}|{arg!r}")
         if out.evaluations % 9973 == 1:
             out.sample({"line": enc(acc, st, arg), "arg": repr(arg), "impl": got, "model": ml})
-        case = {"accessor": acc, "strict": st, "arg": arg}
         # ---- oracle (independent of the model)
-        if got.startswith("err") and got != "err NotAnElement":
-            out.violations.append(Finding("oracle:error_class", case, observed=got, expected="err NotAnElement", detail="only NotAnElementError is documented"))
-        if "FLOAT" in got:
-            out.violations.append(Finding("oracle:mass_float", case, observed=got, detail="float mass is not the nearest double to the Decimal"))
-        if species is None:
-            if not got.startswith("err NotAnElement"):
-                out.violations.append(Finding("oracle:outside_table_accepted", case, observed=got, expected="err NotAnElement", detail="a name that denotes no tabulated species returned data"))
-        elif species != "?":
-            z, sym, nm, a, mass = exp[species]
-            strict_ok = species in el_syms
-            if st and not strict_ok:
-                want = "err NotAnElement"
-            else:
-                want = {"Z": str(z), "E": sym, "name": nm, "A": str(a), "mass": mass}.get(acc)
-                if acc == "massbits":
-                    import struct
-
-                    want = str(struct.unpack(">Q", struct.pack(">d", float(mass)))[0])
-                if acc in ("period", "group"):
-                    if sym == "X":
-                        want = None  # the dummy has no position in the textbook table; model diff only
-                    else:
-                        p, g = textbook[sym]
-                        want = str(p) if acc == "period" else str(g)
-                want = None if want is None else "ok " + want
-            if want is not None and got != want:
-                out.violations.append(Finding("oracle:nist_value", case, observed=got, expected=want, detail=f"species {species} ({tag})"))
+        out.violations += judge(pt, T, acc, st, arg, species, tag, got)
         # ---- correspondence
         if ml is not None and ml != got.split(" FLOAT")[0]:
-            out.mismatches.append(Finding("mismatch", case, observed=got, expected=ml, detail="implementation vs Lean model"))
+            out.mismatches.append(Finding("mismatch", {"accessor": acc, "strict": st, "arg": arg, "species": species, "tag": tag}, observed=got, expected=ml, detail="implementation vs Lean model"))
+    # ---- the oracle's own sources must not contradict each other (raw NIST file vs embedded textbook table)
+    for sym, why in T.conflicts:
+        got = call_impl(pt, "A", 0, sym)
+        out.violations.append(Finding("oracle:nist_file_vs_textbook", {"accessor": "A", "strict": 0, "arg": sym, "species": sym, "tag": "symbol", "conflict": True},
+                                      observed=got, expected=why, detail="the raw NIST file under raw_data/ contradicts the embedded textbook table: the reference itself was altered"))
+    out.count("unstable elements (default isotope anchored in NIST SP 966 / SRD-144 brackets)", sum(1 for _, s_, _ in elements if s_ != "X" and T.anchor[s_][3]))
     out.exhaustive = True
-    out.notes.append(f"exhaustive over {len(elements)} element rows and {len(labels)} nuclide labels; outside-table and random streams sampled from VERIF_SEED")
+    out.notes.append(f"exhaustive over {len(elements)} element rows and {len(labels)} nuclide labels (NIST's and the shipped table's; {len(missing)} NIST labels missing from the shipped table, "
+                     f"{len(labels) - len(exp)} shipped labels unknown to NIST); outside-table and random streams sampled from VERIF_SEED")
     out.notes.append("translator cross-check: every table value the implementation returned was compared with the Lean driver reading the generated tables")
+    out.notes.append("oracle sources: raw SRD-144 JSON + embedded textbook table (names, longest-lived isotopes, renames, 18-column layout); build_periodic_table.py and the shipped data file are NOT read by the oracle")
     return out
 
 
 def replay(ctx: Ctx, case) -> Outcome:
     import qcelemental as qcel
 
+    pt = qcel.periodictable
     out = Outcome()
     acc, st, arg = case["accessor"], case["strict"], case["arg"]
-    got = call_impl(qcel.periodictable, acc, st, arg)
-    line = f"{acc} {st} " + (f"i {arg}" if isinstance(arg, int) else f"s {hexs(arg)}")
+    got = call_impl(pt, acc, st, arg)
+    line = enc(acc, st, arg)
     ml = ctx.run_model(DRIVER, [line])[0] if ctx.model_available else None
     out.evaluations = 1
     out.sample({"line": line, "impl": got, "model": ml})
-    if ml is not None and ml != got:
+    if ml is not None and ml != got.split(" FLOAT")[0]:
         out.mismatches.append(Finding("mismatch", case, observed=got, expected=ml))
-    # re-run the oracle on this one argument through the full run's tables
-    exp, elements = nist_expectations()
+    T = Tables()
+    if "species" in case:
+        # the full oracle on this one input
+        out.violations += judge(pt, T, acc, st, arg, case["species"], case.get("tag", "replay"), got)
+        if case.get("conflict"):
+            for sym, why in T.conflicts:
+                if sym == case["species"]:
+                    out.violations.append(Finding("oracle:nist_file_vs_textbook", case, observed=got, expected=why))
+        return out
+    # replay files recorded before `species` was part of the case: re-derive it from the argument
+    exp, elements = T.exp, T.elements
     key = arg.capitalize() if isinstance(arg, str) else None
     if key in exp:
         z, sym, nm, a, mass = exp[key]
